@@ -10,6 +10,7 @@
 import NemoVerif.Lemmas.Dnf
 import NemoVerif.Lemmas.GroupExpand
 import NemoVerif.Lemmas.GroupVM
+import NemoVerif.Lemmas.GroupExpandAwait
 namespace NemoVerif.C07
 open NemoVerif NemoVerif.Dnf NemoVerif.GroupExpand NemoVerif.GroupVM
 
@@ -172,7 +173,12 @@ theorem merging_always_completes (fuel : Nat) (vm : VM) (queue : List QItem) (ch
       execution on every run: heads (position, status) of the REAL interpreter after every event = `renderHeads`, with the
       recorded `random.choice` outcomes, and the real element list = `expandMatch g` (exactly) with `readBack` = clauses.
 
-  T3  await_group_same_formula : see `Lemmas/GroupExpandAwait.lean` / design_notes/C07.md.
+  T3  await_group_same_formula (behaviour): `await g` over flows f_i completes at es[k] ↔ (markers g es')[k]? = some true
+      where es' reads "flow f_i finished" for atom i and forgets flows that failed.  The STRUCTURE of the await expansion is
+      mirrored and checked (`readBackAwait_expandAwait` below: per clause the same and-template over `$ref.Finished()`,
+      the or-level with scope and failure path); its run-time behaviour (child flows, FlowFinished / FlowFailed events,
+      scopes) needs the whole interpreter and is checked by execution (ops await / awaitf).  `_expand_when_stmt_element`
+      is not mirrored (ops when / whenmix / when2 / whenf: execution + oracle only).
 -/
 
 /-! ## the expanded element list -/
@@ -188,6 +194,19 @@ theorem readBack_expandMatch (g : G) : readBack (expandMatch g) = some (toDnf (n
 /-- ... and for any clause list and any start of the fresh-name counter. -/
 theorem readBack_expandClauses (d : Clauses) (k : Nat) : readBack (expandClauses d k).1 = some d := by
   simp only [readBack, readGroup_expandClauses]
+
+/-! ## `await <group of flows>` (T3, structure) -/
+
+/-- The checker run on the REAL element list of every generated `await <group>` accepts what the mirror of
+    `_expand_await_element` (+ `_expand_start_element`, + the and-template over `$ref.Finished()`) emits and reads
+    back the clauses of the normalised group: per clause every flow is started exactly once and exactly the started
+    references are awaited, `WaitForHeads.number` = flows of the clause (and-template) resp. number of clauses
+    (failure path), both exits close the scope. -/
+theorem readBackAwait_expandAwait (g : G) : readBackAwait (expandAwait g) = some (toDnf (normalize g)) := by
+  simp only [readBackAwait, expandAwait, readAwaitGroup_expand]
+
+theorem readBackAwait_expandAwaitClauses (d : Clauses) (k : Nat) : readBackAwait (expandAwaitClauses d k).1 = some d := by
+  simp only [readBackAwait, readAwaitGroup_expand]
 
 /-! ## non-vacuity and kernel-evaluated tests (labelled as tests: finite facts) -/
 
